@@ -150,3 +150,16 @@ package putsvc
 //@   callee (*put.distributedTarget).saveObject$4, dynamic:freevar.sumLimitsSinceRule
 //@   pureeffect
 //@   requires [sum_starts_after_the_current_position] a0 == i + 1
+
+// ---- C21 (several rules from one buffer): the payload buffer handed to the EC encoder has
+// no spare capacity - the codec places parity shards in spare capacity of its input, and the
+// next rule's encoding would overwrite them.
+//@ callrule c21_ec_input_buffer_has_no_spare_capacity in (*distributedTarget).modifyECParentObject
+//@   property C21
+//@   callee bytes.NewBuffer
+//@   pureeffect
+//@   requires [capacity_equals_payload_length] cap(a0) == payloadLen
+//@ callrule c21_modify_collaborators in (*distributedTarget).modifyECParentObject
+//@   property C21
+//@   callee put.getPayload, put.putPayload, (*object.Object).*, (object.Object).*
+//@   pureeffect
